@@ -506,6 +506,10 @@ class Aspire:
                     saved_config = True
                     if defaults is not None:
                         defaults["saved_config"] = True
+                if kwargs.get("resume_from") is None and "checkpoint" in h5_file:
+                    # A checkpoint left by an earlier run does not belong to
+                    # the configuration and flow written for this run
+                    del h5_file["checkpoint"]
                 if self.flow is not None and not saved_flow:
                     # The file must hold the flow this run samples from
                     if "flow" in h5_file:
